@@ -36,7 +36,8 @@ def run(ctx):
     for r, t in [("C06-R1", "Join / LendJoin / ParJoin siblings agree"), ("C06-R2", "optional members consult the real mask"),
                  ("C06-R3", "lookup by entity checks the joined mask and aliveness"), ("C06-R4", "the mask iterator's index is the index every member is asked for"),
                  ("C06-R5", "storage members hand out their own mask and storage"), ("C06-R6", "arity tables (observation)"),
-                 ("C06-R7", "join iterators start from the full iterator of the single opened mask")]:
+                 ("C06-R7", "join iterators start from the full iterator of the single opened mask"),
+                 ("C06-R8", "the join iterator never accounts for an item without the members' get()")]:
         ctx.rule(r, t)
     for cfg in configs(ctx.tier):
         facts = ctx.xfacts(cfg)
@@ -47,6 +48,7 @@ def run(ctx):
         r5(ctx, facts)
         r6(ctx, facts)
         r7(ctx, facts)
+        r8(ctx, facts)
     witness.run_set(ctx, "C06", ["w7_entries_not_join"])
 
 
@@ -400,3 +402,42 @@ def r7(ctx, facts):
             why = "a further entry point builds a join iterator by hand; not decided: " + why
         ctx.ob("C06-R7", "%s starts from the opened mask's full iterator" % b.path, ok, b.loc(), why)
     ctx.floor("C06-R7", "join iterator constructors", n, 2)
+
+
+def r8(ctx, facts):
+    """Every item a join iterator accounts for has gone through the members' `get`.  `Iterator for JoinIter` (and any other iterator impl over
+    the join iterators) may override provided methods only in ways that still fetch: an override that consumes the KEYS alone (seed C04-k1:
+    `fn count(self) -> usize { self.keys.count() }`) returns the right number while members whose `get` has an effect - `Drain` removes, a
+    by-value `ChangeSet` takes - are silently skipped.  Rule: every method of such an impl other than size_hint that touches the `keys` field
+    also reaches `Join::get` on the `values` field or delegates to `next` on self."""
+    n = 0
+    for im in facts.impls:
+        if im.get("trait") not in ("std::iter::Iterator", "std::iter::DoubleEndedIterator", "std::iter::ExactSizeIterator", "std::iter::FusedIterator"):
+            continue
+        if base_ty(im["self_ty"]) not in ("join::JoinIter",):
+            continue
+        for mname, mpath in sorted(im["items"].items()):
+            b = facts.body(mpath)
+            if not b:
+                continue
+            n += 1
+            if mname == "size_hint":
+                continue
+            touches_keys = False
+            fetches = False
+            for bb, t in b.calls():
+                c = t["callee"]
+                if t["args"]:
+                    o = b.arg_origin(bb, 0)
+                    roots = b.roots(o)
+                    if any(r[0] == "param" and r[1] == 1 and r[2][:1] == ("keys",) for r in roots):
+                        touches_keys = True
+                    if (c.get("path") or "").endswith("Join::get") and any(r[0] == "param" and r[1] == 1 and r[2][:1] == ("values",) for r in roots):
+                        fetches = True
+                    if c.get("path") == "std::iter::Iterator::next" and o[:2] == ("param", 1) and not o[2]:
+                        fetches = True
+            ok = fetches or not touches_keys
+            ctx.ob("C06-R8", "%s::%s fetches what it consumes" % (base_ty(im["self_ty"]), mname), ok, b.loc(),
+                   "" if ok else "this override consumes the iterator's keys without calling the members' get(): members whose get has an effect "
+                   "(Drain removes, a by-value ChangeSet takes the amount) are skipped although the item is counted as visited")
+    ctx.floor("C06-R8", "methods of the join iterator's Iterator impl", n, 1)
